@@ -11,17 +11,24 @@ git -C /repo worktree add -q --detach "$WT" HEAD || exit 2
 trap 'git -C /repo worktree remove --force "$WT" >/dev/null 2>&1' EXIT
 WRAPS=$(grep -h -o -- '-Wl,--wrap[^ `]*' "$D/README.md" | head -1)
 cp "$D"/*.c "$D"/*.h "$D"/*.inc "$WT"/ 2>/dev/null
-build_demo() { (cd "$WT" && cc -O1 -g -w demo.c -I. -Imatrixssl -Icore/config -Icore/include -Icore/osdep/include -Icore/include/sfzcl -Icrypto $WRAPS matrixssl/libssl_s.a crypto/libcrypt_s.a core/libcore_s.a -lpthread -o demo_bin) >> "$LOG" 2>&1; }
-(cd "$WT" && make libs -j8) >> "$LOG" 2>&1 || { echo "clean build failed" >> "$LOG"; }
-build_demo; (cd "$WT" && timeout 600 ./demo_bin) > "$OUT/demo.clean.out" 2>&1; RC_CLEAN=$?
+# SEED_ASAN=1: the demonstration observes the fault through AddressSanitizer: the libraries are (re)built with ASan for the two
+# demo runs only; the baseline test programs run on the plain build
+ASANF=""; [ -n "$SEED_ASAN" ] && ASANF="-fsanitize=address -fno-omit-frame-pointer"
+libs() { if [ -n "$SEED_ASAN" ]; then (cd "$WT" && make clean >/dev/null 2>&1; make libs -j8 CFLAGS_EXTRA="$ASANF" LDFLAGS=-fsanitize=address); else (cd "$WT" && make libs -j8); fi; }
+build_demo() { (cd "$WT" && ASAN_OPTIONS=detect_leaks=0 cc -O1 -g -w $ASANF demo.c -I. -Imatrixssl -Icore/config -Icore/include -Icore/osdep/include -Icore/include/sfzcl -Icrypto $WRAPS matrixssl/libssl_s.a crypto/libcrypt_s.a core/libcore_s.a -lpthread -o demo_bin) >> "$LOG" 2>&1; }
+libs >> "$LOG" 2>&1 || { echo "clean build failed" >> "$LOG"; }
+export ASAN_OPTIONS=detect_leaks=0
+build_demo; (cd "$WT" && timeout 600 ./demo_bin ${DEMO_ARGS//@WT@/$WT}) > "$OUT/demo.clean.out" 2>&1; RC_CLEAN=$?
 APPLY=ok; git -C "$WT" apply "$D/patch.diff" >> "$LOG" 2>&1 || APPLY=fail
+[ -n "$SEED_ASAN" ] && (cd "$WT" && make clean) >> "$LOG" 2>&1
 (cd "$WT" && make -j8) >> "$LOG" 2>&1; RC_MAKE=$?
 TESTS=""; TFAIL=0
 for t in algorithmTest eccTest rsaTest hmacTest cryptoOpen; do
   (cd "$WT/crypto/test" && timeout 900 ./$t) > "$OUT/test-$t.out" 2>&1; r=$?; TESTS="$TESTS $t=$r"; [ $r -ne 0 ] && TFAIL=1
   tail -3 "$OUT/test-$t.out" > "$OUT/test-$t.tail"; rm -f "$OUT/test-$t.out"
 done
-build_demo; (cd "$WT" && timeout 600 ./demo_bin) > "$OUT/demo.seeded.out" 2>&1; RC_SEED=$?
+[ -n "$SEED_ASAN" ] && libs >> "$LOG" 2>&1
+build_demo; (cd "$WT" && timeout 600 ./demo_bin ${DEMO_ARGS//@WT@/$WT}) > "$OUT/demo.seeded.out" 2>&1; RC_SEED=$?
 cp "$D/patch.diff" "$OUT/"; cp "$D"/demo.c "$D"/*.h "$D"/*.inc "$D"/README.md "$OUT"/ 2>/dev/null
 python3 - "$P" "$N" "$NEEDS" "$RC_CLEAN" "$APPLY" "$RC_MAKE" "$TESTS" "$TFAIL" "$RC_SEED" "$WRAPS" <<'PY'
 import json, sys, subprocess
